@@ -148,9 +148,12 @@ class Model:
 
     def advance(self, t):
         """fire the minimum on/off timer if it expired strictly before t"""
-        if self.timer is not None and abs(self.timer - t) < 1e-5:
-            raise Tie()
-        while self.timer is not None and self.timer < t:
+        while self.timer is not None:
+            if abs(self.timer - t) < 1e-5:
+                # (also a hold that was started by the release of the previous one and ends exactly now)
+                raise Tie()
+            if self.timer > t:
+                break
             te = self.timer
             self.timer = None
             self.slots[5] = None
@@ -391,7 +394,11 @@ def check(desc, run, res):
             run.w.probe('cov_ops')
             continue
         if op['op'] == 'cmd':
-            exp = m.command(t, op['value'], op.get('prio'))
+            try:
+                exp = m.command(t, op['value'], op.get('prio'))
+            except Tie:
+                run.w.probe('tie_rest_of_run_discarded')
+                break
             if got != exp:
                 if exp == ('ack',):
                     viol('C17.b', 'valid-command-refused', 'op #%d %r at t=%.3f answered %r' % (opi, _s(op), t, got), got=got[:3])
@@ -400,7 +407,11 @@ def check(desc, run, res):
                 else:
                     viol('C17.c', 'invalid-priority-wrong-error', 'op #%d %r refused with %r, expected %r' % (opi, _s(op), got, exp), prio=op.get('prio'))
         else:
-            m.advance(t)
+            try:
+                m.advance(t)
+            except Tie:
+                run.w.probe('tie_rest_of_run_discarded')
+                break
             if op['prop'] == 'presentValue':
                 exp_pv = m.pv
                 expb = slot_bytes(kind, exp_pv)
